@@ -341,6 +341,11 @@ func (p *Program) installOS() {
 	// roaring model
 	in["github.com/RoaringBitmap/roaring.symCard"] = func(fr *frame, a []Value) Value { return fr.m.card(a[0].(*Term)) }
 	in["github.com/RoaringBitmap/roaring.symSize"] = func(fr *frame, a []Value) Value { return fr.m.sizeUF(a[0].(*Term)) }
+	in["github.com/RoaringBitmap/roaring.symSerSize"] = func(fr *frame, a []Value) Value {
+		r := UF("bmsersize", 64, a[0].(*Term))
+		fr.m.assertPC(Cmp(OpUlt, r, K(64, 1<<40)))
+		return r
+	}
 	in["github.com/RoaringBitmap/roaring.symIsConcrete"] = func(fr *frame, a []Value) Value {
 		return KB(a[0].(*Term).IsConst())
 	}
